@@ -566,6 +566,14 @@ func (e *Env) binop(op token.Token, a, b Val, pos token.Pos) Val {
 		default:
 			panic(unsupported("float operator %s", op))
 		}
+		if e.v.spec != nil && e.v.spec.AbstractFP && floatBits(t) == 64 {
+			// arithmetic as uninterpreted functions of the operands' bit patterns (comparisons stay
+			// IEEE): decides that two formulas are the same formula, nothing about their values
+			name := "absf_" + strings.TrimPrefix(strings.Fields(f)[0], "fp.")
+			e.v.d.declareFun(name, []string{"(_ BitVec 64)", "(_ BitVec 64)"}, "(_ BitVec 64)")
+			e.v.trust("floating-point + - * / are uninterpreted functions in " + e.v.fi.name() + " (contract clause 'floats abstract')")
+			return Val{T: t, S: fmt.Sprintf("(%s %s %s)", name, a.S, b.S)}
+		}
 		return e.v.fpResult(e, t, fmt.Sprintf("(%s %s %s)", f, fa, fb))
 	}
 	if isString(t) {
